@@ -503,7 +503,9 @@ void verif_tt_point(int kind, const void* slot) {
         vsim::yield(vsim::S_TT);
 }
 
+} // extern "C"
 void (*verif_tt_index_observer)(unsigned long long, unsigned long long, unsigned long long) = nullptr;
+extern "C" {
 static volatile bool g_ttIndexBad = false;
 static unsigned long long g_badIdx[3];
 void verif_tt_index(unsigned long long idx, unsigned long long usedSize, unsigned long long tableSize) {
